@@ -20,6 +20,15 @@ func Root() string {
 	return "/verif"
 }
 
+// OutRoot is where evidence/ and replays/ are written: Root() unless VERIF_OUT_DIR redirects them
+// (runs against seeded changes must not overwrite the committed evidence of the unchanged tree).
+func OutRoot() string {
+	if v := os.Getenv("VERIF_OUT_DIR"); v != "" {
+		return v
+	}
+	return Root()
+}
+
 // KnownFinding is one entry of /verif/known_findings.json: a genuine defect of the
 // repository that is recorded instead of repaired. Signature is the exact classifier
 // string the monitor computes from a witness, so that a different violation of the
@@ -109,7 +118,7 @@ func Start(id string) *Run {
 	}
 	r.OnlyCase = os.Getenv("VERIF_CASE")
 	if r.OnlyCase == "" && os.Getenv("VERIF_CHILD_REPORT") == "" { // stale witnesses of earlier runs of this property
-		if old, _ := filepath.Glob(filepath.Join(Root(), "replays", id+"-*.json")); old != nil {
+		if old, _ := filepath.Glob(filepath.Join(OutRoot(), "replays", id+"-*.json")); old != nil {
 			for _, f := range old {
 				_ = os.Remove(f)
 			}
@@ -276,7 +285,7 @@ func (r *Run) Finish() {
 		_ = os.WriteFile(p, b, 0o644)
 		os.Exit(0)
 	}
-	root := Root()
+	root := OutRoot()
 	cov := map[string]any{}
 	for k, v := range r.extra {
 		cov[k] = v
